@@ -8,6 +8,7 @@ from pyvc.core import Unsupported
 from pyvc.interp import LoopSpec
 from pyvc.pstr import PStr
 from pyvc.values import *
+from . import c11          # the coordinate conversions are used through their contracts (summaries)
 
 PVG = 'moPepGen/svgraph/PVGNode.py'
 I_ = z3.IntSort()
@@ -119,6 +120,56 @@ class FixSelenocysteines(Contract):
             return
         e.prove('C09/fix-sec/same-length-U-at-every-site-original-residue-elsewhere', self.rebuilt(st, new, st.m))
         e.prove('C09/fix-sec/node-records-exactly-these-sites', st.node.fields['selenocysteines'] is st.sects)
+
+
+VR9 = 'moPepGen/seqvar/VariantRecord.py'
+
+
+@register
+class CreateVariantSect(Contract):
+    """the SECT event of a selenocysteine at transcript position pos: a record on [pos, pos + 3) of the transcript, reference TGA, whose id
+    SECT-<n> names the gene coordinate (1-based) of the first base of the codon - the genomic position of gene coordinate n - 1 is the
+    genomic position of transcript position pos, on both strands"""
+    path, qualname, props = VR9, 'create_variant_sect', ('C09',)
+    use_summaries = True
+    declared_raises = ['ValueError']
+    assumptions = ('summaries: coordinate_transcript_to_genomic and coordinate_genomic_to_gene are their proved contracts (C11); the transcript lies inside its gene, same strand',)
+
+    def setup(self, I):
+        from .c11 import mk_tx_tagged, mk_gene_tagged
+        from .lib import mk_anno, strand_pm
+        e = I.e
+        st = types.SimpleNamespace()
+        st.h = mk_tx_tagged(I, gene_id='ENSG_G')
+        st.gn = mk_gene_tagged(I, gene_id='ENSG_G')
+        for a in st.h.axioms:
+            e.assume(a)
+        e.assume(z3.And(st.gn.strand == st.h.strand, strand_pm(st.h.strand), st.gn.start < st.gn.end))
+        # the transcript lies inside its gene
+        e.assume(z3.And(st.gn.start <= st.h.s[0], st.h.e[st.h.n - 1] <= st.gn.end))
+        st.anno = mk_anno(I, genes=[st.gn], txs=[st.h])
+        st.pos = e.int('sec_position')
+        e.assume(st.pos >= 0)
+        st.args = [st.anno, 'ENST_T', st.pos]
+        self._cur = st
+        return st
+
+    def post_return(self, I, st, ret):
+        from .c11 import t2g_spec, gene2g_val
+        e = I.e
+        loc = ret.fields['location']
+        e.prove('C09/sect-record/on-the-three-bases-of-the-codon-in-transcript-coordinates', z3.And(loc.fields['start'] == st.pos, loc.fields['end'] == st.pos + 3))
+        e.prove('C09/sect-record/TGA-to-SECT-on-this-transcript', ret.fields['ref'] == 'TGA' and ret.fields['alt'] == '<SECT>' and ret.fields['type'] == 'SECT'
+                and ret.fields['attrs'].get('TRANSCRIPT_ID') == 'ENST_T')
+        _id = ret.fields['id']
+        ok = isinstance(_id, OpaqueStr) and len(_id.parts) == 2 and _id.parts[0] == 'SECT-' and is_sym_int(_id.parts[1])
+        n = _id.parts[1] if ok else z3.IntVal(0)
+        e.prove('C09/sect-record/id-names-the-gene-coordinate-of-the-first-codon-base',
+                z3.And(n >= 1, n - 1 < st.gn.end - st.gn.start, t2g_spec(st.h, st.pos, gene2g_val(st.gn, n - 1))) if ok else False)
+
+    def post_raise(self, I, st, exc):
+        h = st.h
+        I.e.prove('C09/sect-record/raise/only-for-a-codon-that-does-not-lie-inside-the-transcript', z3.And(exc.cls == 'ValueError', st.pos + 2 >= h.cum(h.n)))
 
 
 NATIVE = []
